@@ -64,13 +64,7 @@ Fixpoint shape_ok (it : item) : bool :=
   | IStmt _ _ => true
   end.
 
-(** statements stand in Method bodies only *)
 Definition nostmt (it : item) : bool := match it with IStmt _ _ => false | _ => true end.
-Fixpoint stmt_ok (it : item) : bool :=
-  match it with
-  | IBlk bk _ _ _ body => (match bk with BMeth => true | _ => forallb nostmt body end) && forallb stmt_ok body
-  | _ => true
-  end.
 
 Definition simple_name (nm : namestr) : option N :=
   match n_segs nm with
@@ -169,7 +163,7 @@ Qed.
 Lemma wf_item e ms : forall it scope, shape_ok it = true -> wf_ast e ms scope (item_ast it) = true -> item_okb it = true.
 Proof.
   fix IH 1. intros [d|bk k seg fa body|lk seg fa ta|seg k n elems|sk ta] scope Hs Hw.
-  5:{ cbn [item_ast wf_ast] in Hw. cbn [item_okb]. apply andb_prop in Hw. destruct Hw as [Har Hall].
+  5:{ cbn [item_ast wf_ast] in Hw. cbn [item_okb]. apply andb_prop in Hw. destruct Hw as [Har Hall]. apply andb_prop in Har. destruct Har as [Har _].
       assert (Ear : op_arity (sk_op sk) = Some (N.of_nat (sk_n sk))) by (destruct sk; reflexivity). rewrite Ear in Har.
       apply N.eqb_eq in Har. unfold lenN in Har. rewrite map_length in Har.
       apply andb_true_intro. split; [apply Nat.eqb_eq; lia|]. apply (wf_targs e ms scope). exact Hall. }
@@ -266,35 +260,39 @@ Proof.
   cbn [flat_map]. rewrite (IH Ht). destruct x; try discriminate; reflexivity.
 Qed.
 
-Lemma entries_item e : forall it scope, shape_ok it = true -> stmt_ok it = true -> nostmt it = true -> entries e scope (item_ast it) = sentry scope it.
+Lemma sentry_nostmt it p : nostmt it = true -> sentry true p it = sentry false p it.
+Proof. destruct it; try discriminate; reflexivity. Qed.
+
+Lemma entries_item e : forall it scope, shape_ok it = true -> entries e scope (item_ast it) = sentry false scope it.
 Proof.
-  fix IH 1. intros [d|bk k seg fa body|lk seg fa ta|seg k n elems|sk ta] scope Hs Hst Hns; [| | | |discriminate Hns].
+  fix IH 1. intros [d|bk k seg fa body|lk seg fa ta|seg k n elems|sk ta] scope Hs.
+  5:{ assert (En : (sk_op sk =? OP_NOOP) = false) by (destruct sk; reflexivity).
+      cbn [item_ast entries is_noop sentry]. rewrite En, r_stmt_item. reflexivity. }
   - cbn [item_ast sentry]. unfold decl_ast, name_entry. cbn [entries]. unfold decl_path, start_scope. cbn [n_root n_carets n_segs].
     destruct (lenN scope <? 0) eqn:E0; [apply N.ltb_lt in E0; lia|]. change (N.to_nat 0) with 0%nat. rewrite Nat.sub_0_r, firstn_all.
     cbn [r_expr]. unfold const_tokens, const_val, tok_const. destruct (const_bytes (d_op d)); reflexivity.
   - cbn [shape_ok] in Hs. apply andb_prop in Hs. destruct Hs as [Hl Hb]. apply Nat.eqb_eq in Hl.
-    cbn [stmt_ok] in Hst. apply andb_prop in Hst. destruct Hst as [Hmb Hsb].
     assert (Hdp : decl_path scope (seg_name seg) = Some (scope ++ [seg])).
     { unfold decl_path, start_scope. cbn [seg_name n_root n_carets n_segs]. destruct (lenN scope <? 0) eqn:E0; [apply N.ltb_lt in E0; lia|].
       change (N.to_nat 0) with 0%nat. rewrite Nat.sub_0_r, firstn_all. reflexivity. }
-    assert (HBody : forall sc, forallb nostmt body = true ->
+    assert (HBody : forall sc,
                       (fix body (l : list ast) (sc : path) : list (list N) := match l with [] => [] | x :: r => entries e sc x ++ body r sc end) (map item_ast body) sc =
-                               flat_map (sentry sc) body).
-    { clear -IH Hb Hsb. intros sc Hn. induction body as [|x t IHt]; [reflexivity|]. cbn [forallb] in Hb, Hsb, Hn.
-      apply andb_prop in Hb. destruct Hb as [Hx Ht]. apply andb_prop in Hsb. destruct Hsb as [Hsx Hstt]. apply andb_prop in Hn. destruct Hn as [Hnx Hnt].
-      cbn [map flat_map]. rewrite (IH x sc Hx Hsx Hnx), (IHt Ht Hstt Hnt). reflexivity. }
+                               flat_map (sentry false sc) body).
+    { clear -IH Hb. intros sc. induction body as [|x t IHt]; [reflexivity|]. cbn [forallb] in Hb.
+      apply andb_prop in Hb. destruct Hb as [Hx Ht].
+      cbn [map flat_map]. rewrite (IH x sc Hx), (IHt Ht). reflexivity. }
     assert (HDecls : forall sc, (fix decls (l : list ast) (sc : path) : list (list N) :=
                        match l with [] => [] | x :: r => (if is_decl x || is_fieldcontainer x then entries e sc x else []) ++ decls r sc end) (map item_ast body) sc =
-                               flat_map (sentry sc) body).
-    { clear -IH Hb Hsb. intros sc. induction body as [|x t IHt]; [reflexivity|]. cbn [forallb] in Hb, Hsb.
-      apply andb_prop in Hb. destruct Hb as [Hx Ht]. apply andb_prop in Hsb. destruct Hsb as [Hsx Hstt].
-      cbn [map flat_map]. destruct (item_is_decl x) as (E1 & E2). rewrite E1, E2, (IHt Ht Hstt). cbn [orb].
-      destruct (nostmt x) eqn:En; [rewrite (IH x sc Hx Hsx En); reflexivity|]. destruct x; try discriminate En. reflexivity. }
+                               flat_map (sentry true sc) body).
+    { clear -IH Hb. intros sc. induction body as [|x t IHt]; [reflexivity|]. cbn [forallb] in Hb.
+      apply andb_prop in Hb. destruct Hb as [Hx Ht].
+      cbn [map flat_map]. destruct (item_is_decl x) as (E1 & E2). rewrite E1, E2, (IHt Ht). cbn [orb].
+      destruct (nostmt x) eqn:En; [rewrite (IH x sc Hx), (sentry_nostmt x sc En); reflexivity|]. destruct x; try discriminate En. reflexivity. }
     cbn [item_ast sentry]. fold (vstmts body).
     destruct bk; cbn [bk_ws length] in Hl; (destruct fa as [|a0 [|a1 [|a2 [|a3 fa]]]]; try discriminate Hl);
-      cbn [blk_ast entries nth]; rewrite Hdp; rewrite ?(HBody _ Hmb), ?HDecls, ?r_seq_items, ?(vstmts_nostmt body Hmb); unfold blk_entry;
-      cbn [bfx bk_ws combine flat_map fw_op bk_op app anon map concat];
-      match goal with |- context [?a =? aml_pOpMethod] => let c := eval vm_compute in (a =? aml_pOpMethod) in change (a =? aml_pOpMethod) with c end; cbv iota;
+      cbn [blk_ast entries nth]; rewrite Hdp; rewrite ?HBody, ?HDecls, ?r_seq_items; unfold blk_entry;
+      cbn [bfx bk_ws combine flat_map fw_op bk_op app];
+      repeat match goal with |- context [?a =? aml_pOpMethod] => let c := eval vm_compute in (a =? aml_pOpMethod) in change (a =? aml_pOpMethod) with c end; cbv iota;
       rewrite ?app_nil_r, <- ?app_assoc; reflexivity.
   - cbn [shape_ok] in Hs. apply andb_prop in Hs. destruct Hs as [Hl Ht]. apply Nat.eqb_eq in Hl. apply Nat.eqb_eq in Ht.
     assert (Hdp : decl_path scope (seg_name seg) = Some (scope ++ [seg])).
@@ -315,12 +313,11 @@ Proof.
     cbn [item_ast sentry entries]. rewrite Hdp. cbn [r_expr]. rewrite Hcst. unfold pkg_entry, lenN. rewrite map_length. reflexivity.
 Qed.
 
-Lemma entries_items e its : forallb shape_ok its = true -> forallb stmt_ok its = true -> forallb nostmt its = true ->
-  flat_map (entries e []) (map item_ast its) = sentries [] its.
+Lemma entries_items e its : forallb shape_ok its = true -> flat_map (entries e []) (map item_ast its) = sentries false [] its.
 Proof.
-  unfold sentries. induction its as [|x t IH]; intros Hs Hst Hn; [reflexivity|]. cbn [forallb] in Hs, Hst, Hn.
-  apply andb_prop in Hs. destruct Hs as [Hx Ht]. apply andb_prop in Hst. destruct Hst as [Hsx Hstt]. apply andb_prop in Hn. destruct Hn as [Hnx Hnt].
-  cbn [map flat_map]. rewrite (entries_item e x [] Hx Hsx Hnx), (IH Ht Hstt Hnt). reflexivity.
+  unfold sentries. induction its as [|x t IH]; intros Hs; [reflexivity|]. cbn [forallb] in Hs.
+  apply andb_prop in Hs. destruct Hs as [Hx Ht].
+  cbn [map flat_map]. rewrite (entries_item e x [] Hx), (IH Ht). reflexivity.
 Qed.
 
 Lemma root_len5 g pl its : Desc g pl (root_tree5 its) -> (6 + iszs its <= length pl)%nat.
@@ -332,11 +329,11 @@ Qed.
 
 (** the end-to-end statement over items *)
 Theorem parse_encode_items9 its :
-  forallb shape_ok its = true -> forallb stmt_ok its = true -> forallb nostmt its = true ->
+  forallb shape_ok its = true ->
   wf_program [map item_ast its] = true -> lenN (encode_table (map item_ast its)) < 0x10000000 ->
   parse_encode_statement [map item_ast its].
 Proof.
-  intros Hshape Hst Hns Hwf Hfr.
+  intros Hshape Hwf Hfr.
   unfold wf_program in Hwf. cbn [wf_tables app] in Hwf. apply andb_prop in Hwf. destruct Hwf as [Hwf _].
   pose proof (wf_items _ _ its Hshape Hwf) as Hok.
   rewrite (encode_items its Hshape) in Hfr.
@@ -345,8 +342,7 @@ Proof.
   destruct (parse_f9x its t0 Hok Hfr H0) as (s' & gF & plF & Eparse & HF & DF & Etb & _).
   rewrite Eparse. cbn [load_tables app]. change (0 =? 0) with true. cbv iota.
   rewrite (view_f9 (p_tree s') gF plF HF [table_image (enc_items its)] its (hdr_of (enc_items its)) DF Hok (root_len5 _ _ _ DF) ltac:(rewrite table_image_hdr; reflexivity) eq_refl).
-  rewrite (vstmts_nostmt its Hns). cbn [anon map]. rewrite app_nil_r.
-  unfold ns. cbn [flat_map]. rewrite app_nil_r, (entries_items _ its Hshape Hst Hns).
+  unfold ns. cbn [flat_map]. rewrite app_nil_r, (entries_items _ its Hshape).
   f_equal. apply sort_perm. apply ventries_perm.
 Qed.
 
@@ -505,7 +501,7 @@ Qed.
 Definition in_fragment_F9 (tables : list (list ast)) : bool :=
   match tables with
   | [p] => match f9_items p with
-           | Some its => forallb stmt_ok its && forallb nostmt its && (lenN (encode_table p) <? 0x10000000)
+           | Some _ => lenN (encode_table p) <? 0x10000000
            | None => false
            end
   | _ => false
@@ -518,7 +514,7 @@ Proof.
   intros tables Hwf Hfr. unfold in_fragment_F9 in Hfr.
   destruct tables as [|p [|p2 rest]]; try discriminate.
   destruct (f9_items p) as [its|] eqn:Eits; [|discriminate].
-  apply andb_prop in Hfr. destruct Hfr as [Hfr Hsz]. apply andb_prop in Hfr. destruct Hfr as [Hst Hns]. apply N.ltb_lt in Hsz.
+  apply N.ltb_lt in Hfr.
   destruct (f9_items_ast p its Eits) as (-> & Hshape).
   apply parse_encode_items9; assumption.
 Qed.
